@@ -222,7 +222,9 @@ def handleG (j : Json) : Except String Json := do
       -- materialise after every conversion (otherwise closures nest)
       let M' := M.convertForm (fun i => fa.getD i (0, 0))
       let sa := ((List.range M.L).map (fun i =>
-        let s := M'.site i; { s with B := memoT3 s.dL s.d s.dR s.B })).toArray
+        let s := M'.site i
+        let arr := tabT3 s.dL s.d s.dR s.B
+        { s with B := ofArrT3 s.dL s.d s.dR arr })).toArray
       { M' with site := fun i => sa.getD i emptySite }) M
     return obj [("mps", dumpMPS io Ms)]
   | "normtest" =>
@@ -316,16 +318,18 @@ def handleG (j : Json) : Except String Json := do
     let chain := ((M.getBsite 0 fTh) :: M.formSites fB 1 (M.L - 1)).map tabSite
     let rec norms (v : Vec α) : List (RSite α) → List Nat → Except String (List (α × α))
       | s :: ss, p :: ps => do
-        let u := memoVec s.dR (vstep v s p)
+        let ua := tabVec s.dR (vstep v s p)
+        let u := ofArr ua
         let n2 := sumN s.dR (fun b => u b * cj (u b))
         let w ← io.sqrt n2
         let wi ← io.inv w
-        let rest ← norms (memoVec s.dR (fun b => wi * u b)) ss ps
+        let ua2 := tabVec s.dR (fun b => wi * u b)
+        let rest ← norms (ofArr ua2) ss ps
         pure ((w, wi) :: rest)
       | _, _ => pure []
     let ws ← norms (basisVec 0) chain σ
     let wa := ws.toArray
-    let tot := sampleGo (fun i => (wa.getD i (1, 1)).1) (fun i => (wa.getD i (1, 1)).2) 0 (basisVec 0) 1 chain σ
+    let tot := sampleGoE (fun i => (wa.getD i (1, 1)).1) (fun i => (wa.getD i (1, 1)).2) 0 (basisVec 0) 1 chain σ
     let amp := contractE (basisVec 0) chain σ 0
     return obj [("weight", encScalar io tot), ("amp", encScalar io amp)]
   | "inversion" =>
